@@ -160,4 +160,369 @@ theorem flatten_segAux (w : Nat) (acc : Text) (ts : List Text) :
         simp at this
         simp [this]
 
+/-! ## The article rule: token shapes and what a segment is made of -/
+
+/-- Splitting at an explicit separator: the pieces of `a ++ " " ++ b` are those of `a` then those of `b`. -/
+theorem splitSp_append_sp (a b : Text) : splitSp (a ++ 32 :: b) = splitSp a ++ splitSp b := by
+  induction a with
+  | nil => simp [splitSp]
+  | cons c cs ih =>
+    simp only [List.cons_append, splitSp]
+    split
+    · rw [ih]; rfl
+    · rw [ih]
+      cases hs : splitSp cs with
+      | nil => exact absurd hs (splitSp_ne_nil cs)
+      | cons p ps => rfl
+
+/-- No part contains the separator. -/
+theorem splitSp_no_sp (t : Text) : ∀ p ∈ splitSp t, 32 ∉ p := by
+  induction t with
+  | nil => simp [splitSp]
+  | cons c cs ih =>
+    simp only [splitSp]
+    split
+    · intro p hp
+      simp only [List.mem_cons] at hp
+      rcases hp with h | h
+      · subst h; simp
+      · exact ih p h
+    · next hc =>
+      cases hs : splitSp cs with
+      | nil => exact absurd hs (splitSp_ne_nil cs)
+      | cons q qs =>
+        rw [hs] at ih
+        intro p hp
+        simp only [List.mem_cons] at hp
+        rcases hp with h | h
+        · subst h
+          have := ih q (by simp)
+          simp only [List.mem_cons, not_or]
+          exact ⟨fun e => hc e.symm, this⟩
+        · exact ih p (by simp [h])
+
+theorem splitSp_of_no_sp (p : Text) (h : 32 ∉ p) : splitSp p = [p] := by
+  induction p with
+  | nil => rfl
+  | cons c cs ih =>
+    simp only [List.mem_cons, not_or] at h
+    simp only [splitSp]
+    rw [if_neg (fun e => h.1 e.symm), ih h.2]
+
+theorem splitSp_joinSp (ps : List Text) (hne : ps ≠ []) (h : ∀ p ∈ ps, 32 ∉ p) :
+    splitSp (joinSp ps) = ps := by
+  induction ps with
+  | nil => exact absurd rfl hne
+  | cons p ps ih =>
+    cases ps with
+    | nil => exact splitSp_of_no_sp p (h p (by simp))
+    | cons q qs =>
+      rw [joinSp_cons_cons, splitSp_append_sp, splitSp_of_no_sp p (h p (by simp)),
+        ih (by simp) (fun x hx => h x (by simp [hx]))]
+      rfl
+
+/-- The non-empty parts ("words") of a text. -/
+def words (s : Text) : List Text := (splitSp s).filter (fun p => p ≠ [])
+
+theorem words_nil : words [] = [] := by simp [words, splitSp]
+
+theorem words_append_sp (a b : Text) : words (a ++ 32 :: b) = words a ++ words b := by
+  simp [words, splitSp_append_sp]
+
+theorem words_add_sp (a : Text) : words (a ++ [32]) = words a := by
+  rw [words_append_sp, words_nil, List.append_nil]
+
+theorem mem_words {s p : Text} : p ∈ words s ↔ p ∈ splitSp s ∧ p ≠ [] := by
+  simp [words]
+
+theorem words_joinSp (ps : List Text) (hne : ps ≠ []) (h : ∀ p ∈ ps, 32 ∉ p) :
+    words (joinSp ps) = ps.filter (fun p => p ≠ []) := by
+  rw [words, splitSp_joinSp ps hne h]
+
+/-- All tokens of a list but the last carry a trailing space. -/
+def SpacedButLast (ts : List Text) : Prop :=
+  ∀ l x r, ts = l ++ x :: r → r ≠ [] → ∃ x', x = x' ++ [32]
+
+theorem SpacedButLast.infix {l g r : List Text} (h : SpacedButLast (l ++ g ++ r)) : SpacedButLast g := by
+  intro l' x r' hg hr
+  subst hg
+  exact h (l ++ l') x (r' ++ r) (by simp) (by simp [hr])
+
+theorem spacedButLast_addSpaces (ts : List Text) : SpacedButLast (addSpaces ts) := by
+  induction ts with
+  | nil => intro l x r h; simp [addSpaces] at h
+  | cons t ts ih =>
+    cases ts with
+    | nil =>
+      intro l x r h hr
+      simp only [addSpaces] at h
+      cases l with
+      | nil => simp at h; exact absurd h.2 hr
+      | cons a l => simp at h
+    | cons u us =>
+      intro l x r h hr
+      simp only [addSpaces] at h ih
+      cases l with
+      | nil =>
+        simp only [List.nil_append, List.cons.injEq] at h
+        exact ⟨t, h.1.symm⟩
+      | cons a l =>
+        simp only [List.cons_append, List.cons.injEq] at h
+        exact ih l x r h.2 hr
+
+theorem words_flatten (g : List Text) (h : SpacedButLast g) :
+    words g.flatten = (g.map words).flatten := by
+  induction g with
+  | nil => simp [words_nil]
+  | cons x g ih =>
+    cases g with
+    | nil => simp
+    | cons y r =>
+      obtain ⟨x', hx⟩ := h [] x (y :: r) rfl (by simp)
+      have ih' := ih (SpacedButLast.infix (l := [x]) (r := []) (by simpa using h))
+      subst hx
+      simp only [List.flatten_cons, List.map_cons] at ih' ⊢
+      rw [List.append_assoc, List.singleton_append, words_append_sp, words_add_sp, ih']
+
+theorem map_words_addSpaces (ts : List Text) : (addSpaces ts).map words = ts.map words := by
+  induction ts with
+  | nil => rfl
+  | cons t ts ih =>
+    cases ts with
+    | nil => rfl
+    | cons u us =>
+      simp only [addSpaces, List.map_cons] at ih ⊢
+      rw [words_add_sp, ih]
+
+/-- `p` is an article or an empty part (what the gluing loop keeps pending). -/
+def ArtOrEmpty (arts : List Text) (p : Text) : Prop := p ∈ arts ∨ p = []
+
+/-- A token that is one part which is not an article (possibly the empty part). -/
+def IsWordTok (arts : List Text) (P : Text → Prop) (tok : Text) : Prop := P tok ∧ tok ∉ arts
+
+/-- A token that is an article, further articles / empty parts, and then a real word, joined by spaces. -/
+def IsGluedTok (arts : List Text) (P : Text → Prop) (tok : Text) : Prop :=
+  ∃ q qs p, tok = joinSp (q :: qs ++ [p]) ∧ q ∈ arts ∧ (∀ x ∈ qs, ArtOrEmpty arts x) ∧ p ∉ arts ∧ p ≠ []
+    ∧ ∀ x ∈ q :: qs ++ [p], P x
+
+/-- Generalised token-shape lemma for the loop with a non-empty `pending`. -/
+theorem tokensAux_shape_aux (arts : List Text) (P : Text → Prop) (parts pending : List Text)
+    (hpend : pending = [] ∨ ∃ q qs, pending = q :: qs ∧ q ∈ arts ∧ ∀ x ∈ qs, ArtOrEmpty arts x)
+    (hPpend : ∀ x ∈ pending, P x) (hP : ∀ x ∈ parts, P x) :
+    ∃ body trail, tokensAux arts pending parts = body ++ trail
+      ∧ (∀ tok ∈ body, IsWordTok arts P tok ∨ IsGluedTok arts P tok)
+      ∧ (∀ tok ∈ trail, ArtOrEmpty arts tok ∧ P tok) := by
+  induction parts generalizing pending with
+  | nil =>
+    refine ⟨[], pending, ?_, by simp, ?_⟩
+    · cases pending <;> simp [tokensAux]
+    · intro tok htok
+      refine ⟨?_, hPpend tok htok⟩
+      rcases hpend with h | ⟨q, qs, h, hq, hqs⟩
+      · subst h; simp at htok
+      · subst h
+        simp only [List.mem_cons] at htok
+        rcases htok with h | h
+        · left; rw [h]; exact hq
+        · exact hqs tok h
+  | cons p ps ih =>
+    have hPps : ∀ x ∈ ps, P x := fun x hx => hP x (by simp [hx])
+    have hPp : P p := hP p (by simp)
+    cases pending with
+    | nil =>
+      simp only [tokensAux]
+      split
+      · next hm =>
+        exact ih [p] (Or.inr ⟨p, [], rfl, hm, by simp⟩) (by simpa using hPp) hPps
+      · next hm =>
+        obtain ⟨body, trail, he, hb, ht⟩ := ih [] (Or.inl rfl) (by simp) hPps
+        refine ⟨p :: body, trail, by simp [he], ?_, ht⟩
+        intro tok htok
+        simp only [List.mem_cons] at htok
+        rcases htok with h | h
+        · left; rw [h]; exact ⟨hPp, hm⟩
+        · exact hb tok h
+    | cons q qs =>
+      rcases hpend with h | ⟨q', qs', h, hq, hqs⟩
+      · simp at h
+      · simp only [List.cons.injEq] at h
+        obtain ⟨h1, h2⟩ := h
+        subst h1 h2
+        simp only [tokensAux]
+        split
+        · next hm =>
+          refine ih (q :: qs ++ [p]) (Or.inr ⟨q, qs ++ [p], by simp, hq, ?_⟩) ?_ hPps
+          · intro x hx
+            simp only [List.mem_append, List.mem_singleton] at hx
+            rcases hx with h | h
+            · exact hqs x h
+            · rw [h]; exact hm
+          · intro x hx
+            simp only [List.cons_append, List.mem_cons, List.mem_append, List.not_mem_nil, or_false] at hx
+            rcases hx with h | h | h
+            · exact hPpend x (by simp [h])
+            · exact hPpend x (by simp [h])
+            · rw [h]; exact hPp
+        · next hm =>
+          simp only [not_or] at hm
+          obtain ⟨body, trail, he, hb, ht⟩ := ih [] (Or.inl rfl) (by simp) hPps
+          refine ⟨joinSp (q :: qs ++ [p]) :: body, trail, by simp [he], ?_, ht⟩
+          intro tok htok
+          simp only [List.mem_cons] at htok
+          rcases htok with h | h
+          · right
+            refine ⟨q, qs, p, h, hq, hqs, hm.1, hm.2, ?_⟩
+            intro x hx
+            simp only [List.cons_append, List.mem_cons, List.mem_append, List.not_mem_nil, or_false] at hx
+            rcases hx with h | h | h
+            · exact hPpend x (by simp [h])
+            · exact hPpend x (by simp [h])
+            · rw [h]; exact hPp
+          · exact hb tok h
+
+/-- `ws` does not end with an article. -/
+def NoArtLast (arts : List Text) (ws : List Text) : Prop := ∀ a, ws.getLast? = some a → a ∉ arts
+
+theorem NoArtLast.flatten {arts : List Text} (L : List (List Text)) (h : ∀ ws ∈ L, NoArtLast arts ws) :
+    NoArtLast arts L.flatten := by
+  induction L with
+  | nil => intro a ha; simp at ha
+  | cons ws L ih =>
+    intro a ha
+    simp only [List.flatten_cons, List.getLast?_append] at ha
+    cases hl : L.flatten.getLast? with
+    | none =>
+      rw [hl] at ha
+      exact h ws (by simp) a (by simpa using ha)
+    | some b =>
+      rw [hl] at ha
+      simp at ha
+      subst ha
+      exact ih (fun ws' hws' => h ws' (by simp [hws'])) b hl
+
+theorem noArtLast_word {arts : List Text} {P : Text → Prop} {tok : Text} (hP : ∀ x, P x → 32 ∉ x)
+    (h : IsWordTok arts P tok) : NoArtLast arts (words tok) := by
+  intro a ha
+  rw [words, splitSp_of_no_sp tok (hP tok h.1)] at ha
+  by_cases he : tok = []
+  · simp [he] at ha
+  · simp [he] at ha
+    subst ha; exact h.2
+
+theorem noArtLast_glued {arts : List Text} {P : Text → Prop} {tok : Text} (hP : ∀ x, P x → 32 ∉ x)
+    (h : IsGluedTok arts P tok) : NoArtLast arts (words tok) := by
+  obtain ⟨q, qs, p, he, _, _, hp, hpne, hall⟩ := h
+  intro a ha
+  rw [he, words_joinSp _ (by simp) (fun x hx => hP x (hall x hx))] at ha
+  have : (q :: qs ++ [p]).filter (fun p => p ≠ []) = (q :: qs).filter (fun p => p ≠ []) ++ [p] := by
+    rw [List.filter_append]; simp [hpne]
+  rw [this] at ha
+  simp at ha
+  subst ha; exact hp
+
+theorem words_bare {arts : List Text} {P : Text → Prop} {tok : Text} (hP : ∀ x, P x → 32 ∉ x)
+    (h : ArtOrEmpty arts tok ∧ P tok) : ∀ p ∈ words tok, p ∈ arts := by
+  intro p hp
+  rw [words, splitSp_of_no_sp tok (hP tok h.2)] at hp
+  simp at hp
+  rcases h.1 with h1 | h1
+  · rw [hp.1]; exact h1
+  · exact absurd (hp.1 ▸ h1) hp.2
+
+/-! ### What the segments of the re-flow loop are made of -/
+
+/-- Every segment is the concatenation of a contiguous run of tokens. -/
+theorem segAux_infix (w : Nat) (n : Nat) (accToks ts : List Text) :
+    ∀ x ∈ segAux w n accToks.flatten ts, ∃ l g r, accToks ++ ts = l ++ g ++ r ∧ x = g.flatten := by
+  induction ts generalizing n accToks with
+  | nil =>
+    intro x hx
+    simp only [segAux] at hx
+    split at hx
+    · simp at hx; exact ⟨[], accToks, [], by simp, hx⟩
+    · simp at hx
+  | cons t ts ih =>
+    intro x hx
+    simp only [segAux] at hx
+    split at hx
+    · simp only [List.mem_cons] at hx
+      rcases hx with h | h | h
+      · exact ⟨[], accToks, t :: ts, by simp, h⟩
+      · exact ⟨accToks, [t], ts, by simp, by simp [h]⟩
+      · obtain ⟨l, g, r, he, hx⟩ := ih 0 [] x (by simpa using h)
+        simp only [List.nil_append] at he
+        exact ⟨accToks ++ t :: l, g, r, by simp [he], hx⟩
+    · split at hx
+      · simp only [List.mem_cons] at hx
+        rcases hx with h | h
+        · exact ⟨[], accToks, t :: ts, by simp, h⟩
+        · obtain ⟨l, g, r, he, hx⟩ := ih t.length [t] x (by simpa using h)
+          exact ⟨accToks ++ l, g, r, by simp at he; simp [he], hx⟩
+      · obtain ⟨l, g, r, he, hx⟩ := ih (n + t.length) (accToks ++ [t]) x (by simpa using hx)
+        exact ⟨l, g, r, by simpa using he, hx⟩
+
+/-- A segment together with everything that follows it: the segment is a run of tokens and every
+later segment is a run of later tokens. -/
+theorem segAux_split (w : Nat) (n : Nat) (accToks ts pre post : List Text) (s : Text)
+    (h : segAux w n accToks.flatten ts = pre ++ s :: post) :
+    ∃ T0 T1 T2, accToks ++ ts = T0 ++ T1 ++ T2 ∧ s = T1.flatten
+      ∧ ∀ x ∈ post, ∃ l g r, T2 = l ++ g ++ r ∧ x = g.flatten := by
+  induction ts generalizing n accToks pre with
+  | nil =>
+    simp only [segAux] at h
+    split at h
+    · cases pre with
+      | nil =>
+        simp only [List.nil_append, List.cons.injEq] at h
+        exact ⟨[], accToks, [], by simp, h.1.symm, by simp [← h.2]⟩
+      | cons a pre => simp at h
+    · simp at h
+  | cons t ts ih =>
+    simp only [segAux] at h
+    split at h
+    · -- the token alone is too long
+      cases pre with
+      | nil =>
+        simp only [List.nil_append, List.cons.injEq] at h
+        refine ⟨[], accToks, t :: ts, by simp, h.1.symm, ?_⟩
+        intro x hx
+        rw [← h.2] at hx
+        simp only [List.mem_cons] at hx
+        rcases hx with hx | hx
+        · exact ⟨[], [t], ts, by simp, by simp [hx]⟩
+        · obtain ⟨l, g, r, he, hx⟩ := segAux_infix w 0 [] ts x (by simpa using hx)
+          simp only [List.nil_append] at he
+          exact ⟨t :: l, g, r, by simp [he], hx⟩
+      | cons a pre =>
+        simp only [List.cons_append, List.cons.injEq] at h
+        obtain ⟨_, h⟩ := h
+        cases pre with
+        | nil =>
+          simp only [List.nil_append, List.cons.injEq] at h
+          refine ⟨accToks, [t], ts, by simp, by simp [h.1], ?_⟩
+          intro x hx
+          rw [← h.2] at hx
+          obtain ⟨l, g, r, he, hx⟩ := segAux_infix w 0 [] ts x (by simpa using hx)
+          exact ⟨l, g, r, by simpa using he, hx⟩
+        | cons b pre =>
+          simp only [List.cons_append, List.cons.injEq] at h
+          obtain ⟨T0, T1, T2, he, hs, hpost⟩ := ih 0 [] pre (by simpa using h.2)
+          simp only [List.nil_append] at he
+          exact ⟨accToks ++ t :: T0, T1, T2, by simp [he], hs, hpost⟩
+    · split at h
+      · cases pre with
+        | nil =>
+          simp only [List.nil_append, List.cons.injEq] at h
+          refine ⟨[], accToks, t :: ts, by simp, h.1.symm, ?_⟩
+          intro x hx
+          rw [← h.2] at hx
+          obtain ⟨l, g, r, he, hx⟩ := segAux_infix w t.length [t] ts x (by simpa using hx)
+          exact ⟨l, g, r, by simpa using he, hx⟩
+        | cons a pre =>
+          simp only [List.cons_append, List.cons.injEq] at h
+          obtain ⟨T0, T1, T2, he, hs, hpost⟩ := ih t.length [t] pre (by simpa using h.2)
+          exact ⟨accToks ++ T0, T1, T2, by simp at he; simp [he], hs, hpost⟩
+      · obtain ⟨T0, T1, T2, he, hs, hpost⟩ := ih (n + t.length) (accToks ++ [t]) pre (by simpa using h)
+        exact ⟨T0, T1, T2, by simpa using he, hs, hpost⟩
+
 end AasVerif.Wrap
